@@ -11,6 +11,7 @@ sys.path.insert(0, os.path.dirname(os.path.abspath(__file__)))
 FRAGMENTS = [
     ("Coeff", "gen_coeff"),
     ("FPStencil", "gen_fp"),
+    ("Options", "gen_options"),
 ]
 
 
@@ -27,7 +28,6 @@ def run(outdir):
             status[name] = None
         except Exception as e:  # noqa
             txt = ("/- GENERATION FAILED (fail-closed): %s -/\n"
-                   "import InovesaModel.Model.Scalar\n"
                    "#eval (translator_failed_for_fragment_%s : Nat)\n"
                    % (str(e).replace("-/", "- /")[:1500], name))
             status[name] = "%s: %s" % (type(e).__name__, str(e)[:500])
